@@ -43,7 +43,9 @@ class DOT(Entity):
             for name, (damage, lasting_time) in self.current.items()
             if lasting_time - lapse_time >= 0
         }
-        events = [(name, damage) for name, (damage, _) in new_current.items()]
+        # ticks are reported in the order of the names, not in the order the entries happen to have in the dict: a checkpoint that
+        # travelled as JSON may come back with its members in another order
+        events = [(name, damage) for name, (damage, _) in sorted(new_current.items())]
 
         self.current = new_current
         self.period_time_left = self.period
